@@ -1609,6 +1609,313 @@ theorem C10_kl_space_perm (ε : ℝ) (N : ℕ) (π : Equiv.Perm (Fin N)) (t p : 
   rw [Equiv.sum_comp π (fun k : Fin N => t k.val * probsToLogits ε (t k.val)),
     Equiv.sum_comp π (fun k : Fin N => t k.val * probsToLogits ε (p k.val))]
 
+/-! ### 8. NON-DEFAULT dictionaries (x-packages): states constructed with `unitary_dict=create_dict(**kw)`
+
+Every KL / NLL theorem above is stated for an ARBITRARY `d : Char → M2 ℝ` (hypotheses: unitary entries for the
+normalisation / non-negativity statements, `Z ↦ 1` for the NLL ↔ Born statements, none for the value formulas and
+`C10_kl_self_zero*`). The driver evaluates the metrics with `d = userDict kw`, `kw` the association list of the keyword
+entries the state was constructed with (`[]` for the default dictionary). This section discharges the hypotheses on `d`
+from LIST-level facts about `kw`, ties `userDict` to C04's dictionary-resolution model (`Unitaries.unitariesOf`,
+`siteUs`), and restates the top-level results for `userDict kw` and the RBM states. -/
+
+section userdict
+variable {h a : ℕ}
+
+/-- `create_dict()` without keywords: the default dictionary (so every earlier `defaultDict` statement is the case `kw = []`
+of what the driver runs). -/
+theorem C10_userDict_nil : userDict ([] : Unitaries.UDict ℝ) = defaultDict := by
+  funext c
+  simp only [userDict, dictFn, Unitaries.createDict, defaultDict, List.nil_append, List.lookup_cons, List.lookup_nil]
+  cases hX : (c == 'X') <;> cases hY : (c == 'Y') <;> cases hZ : (c == 'Z') <;> simp
+
+/-- **"the given operators will overwrite the default matrices if they share the same key"** (`create_dict` docstring):
+a letter the user registered — new (`H`, `Q`, …) or a default key (`X`, `Y`) — reads as the user's FIRST entry for it. -/
+theorem C10_userDict_registered (kw : Unitaries.UDict ℝ) (c : Char) (m : M2 ℝ) (hc : kw.lookup c = some m) :
+    userDict kw c = m :=
+  dictFn_of_lookup _ c m (lookup_append_some kw _ c m hc)
+
+/-- a letter the user did NOT register keeps its default meaning -/
+theorem C10_userDict_untouched (kw : Unitaries.UDict ℝ) (c : Char) (hc : kw.lookup c = none) :
+    userDict kw c = defaultDict c := by
+  rw [← C10_userDict_nil]
+  simp only [userDict, dictFn, Unitaries.createDict, lookup_append_none kw _ c hc, List.nil_append]
+
+/-- **unitarity is inherited from the registered entries**: if every matrix the user registered is unitary, every lookup of
+`userDict kw` is (defaults: C04_dX_unitary, C04_dY_unitary, C04_dZ). -/
+theorem C10_userDict_unitary (kw : Unitaries.UDict ℝ) (hkw : ∀ e ∈ kw, (m2c e.2)ᴴ * m2c e.2 = 1) (c : Char) :
+    (m2c (userDict kw c))ᴴ * m2c (userDict kw c) = 1 := by
+  cases hl : kw.lookup c with
+  | none => rw [C10_userDict_untouched kw c hl]; exact C10_defaultDict_unitary c
+  | some m =>
+    rw [C10_userDict_registered kw c m hl]
+    rcases dictFn_cases kw c with ⟨e, he, _, h2⟩ | ⟨_, h2⟩
+    · have : e.2 = m := by rw [← h2]; exact dictFn_of_lookup kw c m hl
+      rw [← this]; exact hkw e he
+    · have : m = Unitaries.dZ := by rw [← h2]; exact (dictFn_of_lookup kw c m hl).symm
+      rw [this, C04_dZ]; simp
+
+/-- **`Z` stays the identity** unless the user overrides it with something else (a non-identity `Z` is outside this
+property's generator: known finding F20 of C04). -/
+theorem C10_userDict_Z (kw : Unitaries.UDict ℝ) (hZ : ∀ e ∈ kw, e.1 = 'Z' → m2c e.2 = 1) :
+    m2c (userDict kw 'Z') = 1 := by
+  cases hl : kw.lookup 'Z' with
+  | none => rw [C10_userDict_untouched kw _ hl]; exact C10_defaultDict_Z
+  | some m =>
+    rw [C10_userDict_registered kw _ m hl]
+    rcases dictFn_cases kw 'Z' with ⟨e, he, h1, h2⟩ | ⟨_, h2⟩
+    · have : e.2 = m := by rw [← h2]; exact dictFn_of_lookup kw _ m hl
+      rw [← this]; exact hZ e he h1
+    · have : m = Unitaries.dZ := by rw [← h2]; exact (dictFn_of_lookup kw _ m hl).symm
+      rw [this, C04_dZ]
+
+/-- **`userDict` IS C04's dictionary resolution.** For a state whose own dictionary is `create_dict(**kw)` and a call
+without `unitaries=` (how `KL` / `NLL` call the rotations), `_unitaries_of` + the per-letter lookup of `rotate_psi` /
+`rotate_rho` (`Unitaries.siteUs`, every site looked up) succeeds exactly when every letter of the basis is a key, and then
+returns the per-site matrices `usOf (userDict kw) b` the C10 model rotates with. -/
+theorem C10_userDict_siteUs (kw : Unitaries.UDict ℝ) (b : Basis n)
+    (hkeys : ∀ j, ((Unitaries.createDict kw).lookup (b.get j)).isSome = true) :
+    Unitaries.siteUs (Unitaries.unitariesOf none (some (Unitaries.createDict kw))) (fun _ => true) b.get
+      = .ok (usOf (userDict kw) b) := by
+  unfold Unitaries.siteUs
+  rw [if_pos]
+  · rfl
+  · simp only [List.all_eq_true, Bool.not_true, Bool.false_or]
+    exact fun j _ => hkeys j
+
+/-- the same for the fast paths (`_rotate_basis_state`: only the letters of ROTATED sites are looked up) -/
+theorem C10_userDict_siteUs_fast (kw : Unitaries.UDict ℝ) (b : Basis n)
+    (hkeys : ∀ j, b.get j ≠ 'Z' → ((Unitaries.createDict kw).lookup (b.get j)).isSome = true) :
+    Unitaries.siteUs (Unitaries.unitariesOf none (some (Unitaries.createDict kw))) (Unitaries.rotOf b.get) b.get
+      = .ok (usOf (userDict kw) b) := by
+  unfold Unitaries.siteUs
+  rw [if_pos]
+  · rfl
+  · simp only [List.all_eq_true, Bool.or_eq_true, Bool.not_eq_true']
+    intro j _
+    by_cases hj : b.get j = 'Z'
+    · left; simp [Unitaries.rotOf, hj]
+    · right; exact hkeys j hj
+
+/-- **C10.3 for the complex RBM state and ANY dictionary with `Z ↦ 1`** (generalises `C10_nll_born_rbm`, which is the
+instance `d = defaultDict`): NLL with per-sample bases is minus the mean log clamped Born probability, the Born
+distribution being that of the dense Kronecker product of the REGISTERED matrices of the sample's own basis letters. -/
+theorem C10_nll_born_rbm_dict (ε : ℝ) (d : Char → M2 ℝ) (hZ : m2c (d 'Z') = 1) (am ph : RBM ℝ n h)
+    (samples : List (Fin n → Bool)) (bs : List (Basis n)) (hlen : bs.length = samples.length) (hne : samples ≠ []) :
+    nllPure ε n (some d) (rbmPsi am ph) (rbmProb am) (rbmZ am) samples (some bs)
+      = .ok ⟨.pyfloat, -(((bs.zip samples).map (fun s => Real.log (clampProbs ε
+          (bornPure (usOf d s.1) (fun τ => C10L.toC (rbmPsi am ph τ)) s.2 / rbmZ am)))).sum) / samples.length⟩ :=
+  C10_nll_formula_born ε d hZ _ _ _ (C10_rbm_born am ph) samples bs hlen hne
+
+/-- the same for the density-matrix RBM -/
+theorem C10_nll_born_rbm_mixed_dict (ε : ℝ) (d : Char → M2 ℝ) (hZ : m2c (d 'Z') = 1) (am ph : PRBM ℝ n h a)
+    (samples : List (Fin n → Bool)) (bs : List (Basis n)) (hlen : bs.length = samples.length) (hne : samples ≠ []) :
+    nllMixed ε n d (rbmRho am ph) (rbmProbD am) (rbmZd am) samples (some bs)
+      = .ok ⟨.pyfloat, -(((bs.zip samples).map (fun s => Real.log (clampProbs ε
+          (bornMixed (usOf d s.1) (Matrix.of fun x y => C10L.toC (rbmRho am ph x y)) s.2 / rbmZd am)))).sum)
+            / samples.length⟩ :=
+  C10_nll_formula_born_mixed ε d hZ _ _ _ (C10_rbm_diag am ph) samples bs hlen hne
+
+/-- **C10.3, what the driver runs for a `ComplexWaveFunction(…, unitary_dict=create_dict(**kw))`**: hypothesis on the
+dictionary reduced to "the user did not register a non-identity `Z`". -/
+theorem C10_nll_born_rbm_userDict (ε : ℝ) (kw : Unitaries.UDict ℝ) (hZ : ∀ e ∈ kw, e.1 = 'Z' → m2c e.2 = 1)
+    (am ph : RBM ℝ n h) (samples : List (Fin n → Bool)) (bs : List (Basis n))
+    (hlen : bs.length = samples.length) (hne : samples ≠ []) :
+    nllPure ε n (some (userDict kw)) (rbmPsi am ph) (rbmProb am) (rbmZ am) samples (some bs)
+      = .ok ⟨.pyfloat, -(((bs.zip samples).map (fun s => Real.log (clampProbs ε
+          (bornPure (usOf (userDict kw) s.1) (fun τ => C10L.toC (rbmPsi am ph τ)) s.2 / rbmZ am)))).sum) / samples.length⟩ :=
+  C10_nll_born_rbm_dict ε _ (C10_userDict_Z kw hZ) am ph samples bs hlen hne
+
+/-- … and for a `DensityMatrix(…, unitary_dict=create_dict(**kw))` -/
+theorem C10_nll_born_rbm_mixed_userDict (ε : ℝ) (kw : Unitaries.UDict ℝ) (hZ : ∀ e ∈ kw, e.1 = 'Z' → m2c e.2 = 1)
+    (am ph : PRBM ℝ n h a) (samples : List (Fin n → Bool)) (bs : List (Basis n))
+    (hlen : bs.length = samples.length) (hne : samples ≠ []) :
+    nllMixed ε n (userDict kw) (rbmRho am ph) (rbmProbD am) (rbmZd am) samples (some bs)
+      = .ok ⟨.pyfloat, -(((bs.zip samples).map (fun s => Real.log (clampProbs ε
+          (bornMixed (usOf (userDict kw) s.1) (Matrix.of fun x y => C10L.toC (rbmRho am ph x y)) s.2 / rbmZd am)))).sum)
+            / samples.length⟩ :=
+  C10_nll_born_rbm_mixed_dict ε _ (C10_userDict_Z kw hZ) am ph samples bs hlen hne
+
+/-- **C10.2b for `ComplexWaveFunction(…, unitary_dict=create_dict(**kw))`**: `KL ≥ 0` over every non-empty list of bases
+written with ANY letters, for every normalised target — the hypothesis on the dictionary is only that the REGISTERED
+matrices are unitary. -/
+theorem C10_kl_nonneg_rbm_userDict (ε : ℝ) (hε : 0 < ε) (kw : Unitaries.UDict ℝ)
+    (hkw : ∀ e ∈ kw, (m2c e.2)ᴴ * m2c e.2 = 1)
+    (am ph : RBM ℝ n h) (t : ℕ → C ℝ) (ht : normSqVec (2 ^ n) t = 1) (b : Basis n) (bs : List (Basis n))
+    (hguard : ∀ b' ∈ b :: bs, TGuard1 ε (2 ^ n) (pureBorn n (userDict kw) b' t)
+        ∧ InGuard ε (2 ^ n) (fun k => pureBorn n (userDict kw) b' (vecOf n (rbmPsi am ph)) k / rbmZ am)) :
+    ∃ v, klPure ε n (some (userDict kw)) (rbmPsi am ph) (rbmProb am) (rbmZ am) (.once t) (some (b :: bs))
+        = .ok ⟨.pyfloat, v⟩ ∧ 0 ≤ v :=
+  C10_kl_nonneg_rbm ε hε _ (C10_userDict_unitary kw hkw) am ph t ht b bs hguard
+
+/-- **C10.2b for `DensityMatrix(…, unitary_dict=create_dict(**kw))`** (registered matrices unitary, `Z` not replaced by a
+non-identity) -/
+theorem C10_kl_nonneg_mixed_rbm_userDict (ε : ℝ) (hε : 0 < ε) (kw : Unitaries.UDict ℝ)
+    (hkw : ∀ e ∈ kw, (m2c e.2)ᴴ * m2c e.2 = 1) (hZ : ∀ e ∈ kw, e.1 = 'Z' → m2c e.2 = 1)
+    (am ph : PRBM ℝ n h a) (T : ℕ → ℕ → C ℝ)
+    (hT1 : ∑ k : Fin (2 ^ n), (T k.val k.val).1 = 1) (b : Basis n) (bs : List (Basis n))
+    (hguard : ∀ b' ∈ b :: bs, TGuard1 ε (2 ^ n) (mixedBorn n (userDict kw) b' (matAt n T))
+        ∧ InGuard ε (2 ^ n) (fun k => mixedBorn n (userDict kw) b' (rbmRho am ph) k / rbmZd am)) :
+    ∃ v, klMixed ε n (userDict kw) (rbmRho am ph) (rbmProbD am) (rbmZd am) (.once T) (some (b :: bs))
+        = .ok ⟨.pyfloat, v⟩ ∧ 0 ≤ v :=
+  C10_kl_nonneg_mixed_rbm ε hε _ (C10_userDict_unitary kw hkw) (C10_userDict_Z kw hZ) am ph T hT1 b bs hguard
+
+/-- **C10.2a in dense form, any dictionary**: under the clamp guard, `KL(nn_state, target, bases)` for a single
+wavefunction target is the mean over the listed bases of the Kullback–Leibler divergence between
+`|(U_b t)(σ)|²` and `|(U_b ψ)(σ)|²/Z`, `U_b = ⊗_j d(b_j)` the DENSE Kronecker product of the registered matrices
+(the very expression the numpy oracle of `harness/c10.py` evaluates). -/
+theorem C10_kl_formula_dense (ε : ℝ) (d : Char → M2 ℝ) (psi : (Fin n → Bool) → C ℝ)
+    (prob : (Fin n → Bool) → ℝ) (Z : ℝ) (t : ℕ → C ℝ) (b : Basis n) (bs : List (Basis n))
+    (hguard : ∀ b' ∈ b :: bs, TGuard ε (2 ^ n) (pureBorn n d b' t)
+        ∧ InGuard ε (2 ^ n) (fun k => pureBorn n d b' (vecOf n psi) k / Z)) :
+    klPure ε n (some d) psi prob Z (.once t) (some (b :: bs))
+      = .ok ⟨.pyfloat, (((b :: bs).map (fun b' =>
+          klDiv (2 ^ n) (fun k => bornPure (usOf d b') (fun τ => C10L.toC (t (basisIndex τ))) (row n k))
+            (fun k => bornPure (usOf d b') (fun τ => C10L.toC (psi τ)) (row n k) / Z))).sum) / ((b :: bs).length : ℕ)⟩ := by
+  have hv : (fun τ : Fin n → Bool => C10L.toC (vecOf n psi (basisIndex τ))) = fun τ => C10L.toC (psi τ) := by
+    funext τ; simp only [vecOf, row_basisIndex]
+  rw [C10_kl_formula ε n d psi prob Z (.once t) (some (b :: bs)) _ (C10_kl_resolve_once _ _) (by simp)]
+  · rw [List.map_map, List.length_map]
+    have hm : ∀ b' ∈ b :: bs,
+        ((fun it : Basis n × TargetSrc (ℕ → C ℝ) =>
+            klDiv (2 ^ n) (tBornPure n d it) fun k => pureBorn n d it.1 (vecOf n psi) k / Z) ∘ fun b => (b, TargetSrc.rotate t)) b'
+          = klDiv (2 ^ n) (fun k => bornPure (usOf d b') (fun τ => C10L.toC (t (basisIndex τ))) (row n k))
+              (fun k => bornPure (usOf d b') (fun τ => C10L.toC (psi τ)) (row n k) / Z) := by
+      intro b' _
+      simp only [Function.comp, klDiv, tBornPure]
+      refine Finset.sum_congr rfl (fun k _ => ?_)
+      rw [C10_pureBorn_dense_row d b' t k.val k.isLt, C10_pureBorn_dense_row d b' (vecOf n psi) k.val k.isLt, hv]
+    rw [List.map_congr_left hm]
+  · intro it hit
+    obtain ⟨b', hb', rfl⟩ := List.mem_map.mp hit
+    exact hguard b' hb'
+
+/-- **C10.2c for the density-matrix RBM, every non-empty list of bases and EVERY dictionary, no hypotheses left**: against
+its own normalised state `ρ/Z` (listed over `space × space`) `KL` is exactly `0`. -/
+theorem C10_kl_self_zero_mixed_rbm (ε : ℝ) (d : Char → M2 ℝ) (am ph : PRBM ℝ n h a) (b : Basis n) (bs : List (Basis n)) :
+    klMixed ε n d (rbmRho am ph) (rbmProbD am) (rbmZd am)
+      (.once (fun i j => ((rbmRho am ph (row n i) (row n j)).1 / rbmZd am, (rbmRho am ph (row n i) (row n j)).2 / rbmZd am)))
+      (some (b :: bs)) = .ok ⟨.pyfloat, 0⟩ := by
+  refine C10_kl_self_zero_mixed ε n d _ _ _ _ _ _ (C10_kl_resolve_once _ _) (by simp) ?_
+  intro it hit
+  obtain ⟨b', _, rfl⟩ := List.mem_map.mp hit
+  intro i j _ _; rfl
+
+/-- **C10.2c for the POSITIVE RBM wavefunction over a list of bases** (`dict = none`: rotated with the default dictionary,
+F10 fix), no hypotheses left. -/
+theorem C10_kl_self_zero_rbm_pos (ε : ℝ) (am : RBM ℝ n h) (b : Basis n) (bs : List (Basis n)) :
+    klPure ε n none (rbmPsiPos am) (rbmProb am) (rbmZ am)
+      (.once (fun k => ((vecOf n (rbmPsiPos am) k).1 / √(rbmZ am), (vecOf n (rbmPsiPos am) k).2 / √(rbmZ am))))
+      (some (b :: bs)) = .ok ⟨.pyfloat, 0⟩ := by
+  rw [(C10_pos_default_dict ε n (rbmPsiPos am) (rbmProb am) (rbmZ am)).1]
+  refine C10_kl_self_zero ε n defaultDict _ _ _ (C10_rbm_Z_pos am).le _ _ _ (C10_kl_resolve_once _ _) (by simp) ?_
+  intro it hit
+  obtain ⟨b', _, rfl⟩ := List.mem_map.mp hit
+  intro k; rfl
+
+/-- **C10.2a in dense form, density matrix, any dictionary with `Z ↦ 1`**: under the clamp guard `KL` of a single target
+matrix `T` over a list of bases is the mean of the Kullback–Leibler divergences between `Re (U_b T U_b†)(σ,σ)` and
+`Re (U_b ρ U_b†)(σ,σ)/Z`, `U_b` the dense Kronecker product of the registered matrices. -/
+theorem C10_kl_formula_dense_mixed (ε : ℝ) (d : Char → M2 ℝ) (hZ : m2c (d 'Z') = 1)
+    (rho : (Fin n → Bool) → (Fin n → Bool) → C ℝ)
+    (prob : (Fin n → Bool) → ℝ) (Z : ℝ) (T : ℕ → ℕ → C ℝ) (b : Basis n) (bs : List (Basis n))
+    (hguard : ∀ b' ∈ b :: bs, TGuard ε (2 ^ n) (mixedBorn n d b' (matAt n T))
+        ∧ InGuard ε (2 ^ n) (fun k => mixedBorn n d b' rho k / Z)) :
+    klMixed ε n d rho prob Z (.once T) (some (b :: bs))
+      = .ok ⟨.pyfloat, (((b :: bs).map (fun b' =>
+          klDiv (2 ^ n) (fun k => bornMixed (usOf d b') (Matrix.of fun x y => C10L.toC (matAt n T x y)) (row n k))
+            (fun k => bornMixed (usOf d b') (Matrix.of fun x y => C10L.toC (rho x y)) (row n k) / Z))).sum)
+              / ((b :: bs).length : ℕ)⟩ := by
+  rw [C10_kl_formula_mixed ε n d rho prob Z (.once T) (some (b :: bs)) _ (C10_kl_resolve_once _ _) (by simp)]
+  · rw [List.map_map, List.length_map]
+    have hm : ∀ b' ∈ b :: bs,
+        ((fun it : Basis n × TargetSrc (ℕ → ℕ → C ℝ) =>
+            klDiv (2 ^ n) (tBornMixed n d it) fun k => mixedBorn n d it.1 rho k / Z) ∘ fun b => (b, TargetSrc.rotate T)) b'
+          = klDiv (2 ^ n) (fun k => bornMixed (usOf d b') (Matrix.of fun x y => C10L.toC (matAt n T x y)) (row n k))
+              (fun k => bornMixed (usOf d b') (Matrix.of fun x y => C10L.toC (rho x y)) (row n k) / Z) := by
+      intro b' _
+      simp only [Function.comp, klDiv, tBornMixed]
+      refine Finset.sum_congr rfl (fun k _ => ?_)
+      rw [← C10_mixedBorn_dense d hZ b' (matAt n T) (row n k.val), ← C10_mixedBorn_dense d hZ b' rho (row n k.val),
+        basisIndex_row k.val k.isLt]
+    rw [List.map_congr_left hm]
+  · intro it hit
+    obtain ⟨b', hb', rfl⟩ := List.mem_map.mp hit
+    exact hguard b' hb'
+
+/-- non-vacuity of `C10_kl_formula_dense` (guard satisfiable at the top level): the rational rotation `exDict`, state
+`(1,0)`, non-real target `(0,i)` — Born distributions `(16/25, 9/25)` vs `(9/25, 16/25)`. -/
+example : ∃ v, klPure ((2 : ℝ)⁻¹ ^ 52) 1 (some exDict) exPsi (fun _ => 0) 1 (.once exTarget) (some [exBasis])
+    = .ok ⟨.pyfloat, v⟩ := by
+  have hε : ((2 : ℝ)⁻¹ ^ 52) ≤ 1 / 4 := by
+    calc ((2 : ℝ)⁻¹ ^ 52) ≤ (2 : ℝ)⁻¹ ^ 2 := pow_le_pow_of_le_one (by norm_num) (by norm_num) (by norm_num)
+      _ = 1 / 4 := by norm_num
+  have hv : vecOf 1 exPsi = fun k' => exPsi (row 1 k') := rfl
+  refine ⟨_, C10_kl_formula_dense _ exDict exPsi _ 1 exTarget exBasis [] ?_⟩
+  intro b' hb'
+  simp only [List.mem_singleton] at hb'
+  subst hb'
+  refine ⟨InGuard.tguard (fun k hk => ?_), fun k hk => ?_⟩
+  · simp only [pureBorn]; rw [ex_rot_target k (by simpa using hk)]
+    split_ifs <;> constructor <;> linarith
+  · simp only [pureBorn]; rw [hv, ex_rot_psi k (by simpa using hk)]
+    split_ifs <;> constructor <;> linarith
+
+/-- non-vacuity of `C10_kl_formula_dense_mixed`: one site, the maximally mixed state `𝟙/2` (`Z = 1`) against the target
+`diag(1/4, 3/4)` in the basis `Z` of the default dictionary (both distributions inside the guard, different). -/
+example : ∃ v, klMixed ((2 : ℝ)⁻¹ ^ 52) 1 defaultDict (fun σ τ => if σ = τ then ((1 / 2 : ℝ), (0 : ℝ)) else (0, 0))
+    (fun _ => 1 / 2) 1 (.once (fun i j => if i = j then ((if i = 0 then (1 / 4 : ℝ) else 3 / 4), (0 : ℝ)) else (0, 0)))
+    (some [(⟨#['Z'], rfl⟩ : Basis 1)]) = .ok ⟨.pyfloat, v⟩ := by
+  have hε : ((2 : ℝ)⁻¹ ^ 52) ≤ 1 / 4 := by
+    calc ((2 : ℝ)⁻¹ ^ 52) ≤ (2 : ℝ)⁻¹ ^ 2 := pow_le_pow_of_le_one (by norm_num) (by norm_num) (by norm_num)
+      _ = 1 / 4 := by norm_num
+  have hb : ∀ (ρ : (Fin 1 → Bool) → (Fin 1 → Bool) → C ℝ) (k : ℕ),
+      mixedBorn 1 defaultDict (⟨#['Z'], rfl⟩ : Basis 1) ρ k = (ρ (Metrics.row 1 k) (Metrics.row 1 k)).1 := by
+    intro ρ k
+    unfold mixedBorn
+    rw [C04_rho_probs, fastK_one _ _ (anyRot_false (by decide))]
+    simp [QV.toC]
+  refine ⟨_, C10_kl_formula_dense_mixed _ defaultDict C10_defaultDict_Z _ _ 1 _ _ [] ?_⟩
+  intro b' hb'
+  simp only [List.mem_singleton] at hb'
+  subst hb'
+  refine ⟨InGuard.tguard (fun k hk => ?_), fun k hk => ?_⟩
+  · simp only [hb, matAt, basisIndex_row k hk, if_true]
+    split_ifs <;> constructor <;> linarith
+  · simp only [hb, if_true]
+    constructor <;> linarith
+
+/-- `C10_kl_self_zero_mixed_rbm` / `C10_kl_self_zero_rbm_pos` have no hypotheses; an instance on the Hadamard-extended
+dictionary, bases `H S`, `Y Z`, `X X` -/
+example (ε : ℝ) (am ph : PRBM ℝ 2 h a) : klMixed ε 2 (userDict exKw) (rbmRho am ph) (rbmProbD am) (rbmZd am)
+    (.once (fun i j => ((rbmRho am ph (Metrics.row 2 i) (Metrics.row 2 j)).1 / rbmZd am, (rbmRho am ph (Metrics.row 2 i) (Metrics.row 2 j)).2 / rbmZd am)))
+    (some [⟨#['H', 'S'], rfl⟩, ⟨#['Y', 'Z'], rfl⟩, ⟨#['X', 'X'], rfl⟩]) = .ok ⟨.pyfloat, 0⟩ :=
+  C10_kl_self_zero_mixed_rbm ε _ am ph _ _
+
+/-- non-vacuity on the Hadamard-extended dictionary: the new letter `H` reads as the Hadamard matrix, the overridden `Y`
+as the user's matrix (NOT the default `dY`), the untouched `X` as the default; every lookup is unitary and `Z ↦ 1`. -/
+example : userDict exKw 'H' = Unitaries.dX ∧ userDict exKw 'Y' = (fun r c => ((if r == c then 0 else 1), 0))
+    ∧ userDict exKw 'X' = defaultDict 'X' ∧ (∀ c, (m2c (userDict exKw c))ᴴ * m2c (userDict exKw c) = 1)
+    ∧ m2c (userDict exKw 'Z') = 1 :=
+  ⟨C10_userDict_registered _ _ _ rfl, C10_userDict_registered _ _ _ rfl, C10_userDict_untouched _ _ rfl,
+    C10_userDict_unitary _ exKw_unitary, C10_userDict_Z _ exKw_Z⟩
+
+/-- every letter of the basis `H S Y Z` is a key of `create_dict(**exKw)`: the hypothesis of `C10_userDict_siteUs` holds -/
+example : Unitaries.siteUs (Unitaries.unitariesOf none (some (Unitaries.createDict exKw))) (fun _ => true)
+    (⟨#['H', 'S', 'Y', 'Z'], rfl⟩ : Basis 4).get = .ok (usOf (userDict exKw) ⟨#['H', 'S', 'Y', 'Z'], rfl⟩) :=
+  C10_userDict_siteUs exKw _ (by decide)
+
+/-- the hypotheses of `C10_nll_born_rbm_userDict` / `_mixed_userDict` on the Hadamard-extended dictionary: two samples
+measured in the bases `H S` and `Y Z` of a 2-qubit state with arbitrary parameters -/
+example (ε : ℝ) (am ph : RBM ℝ 2 h) : ∃ v, nllPure ε 2 (some (userDict exKw)) (rbmPsi am ph) (rbmProb am) (rbmZ am)
+    [fun _ => true, fun j => j = 0] (some [⟨#['H', 'S'], rfl⟩, ⟨#['Y', 'Z'], rfl⟩]) = .ok ⟨.pyfloat, v⟩ :=
+  ⟨_, C10_nll_born_rbm_userDict ε exKw exKw_Z am ph _ _ rfl (by simp)⟩
+
+example (ε : ℝ) (am ph : PRBM ℝ 2 h a) : ∃ v, nllMixed ε 2 (userDict exKw) (rbmRho am ph) (rbmProbD am) (rbmZd am)
+    [fun _ => true, fun j => j = 0] (some [⟨#['H', 'S'], rfl⟩, ⟨#['Y', 'Z'], rfl⟩]) = .ok ⟨.pyfloat, v⟩ :=
+  ⟨_, C10_nll_born_rbm_mixed_userDict ε exKw exKw_Z am ph _ _ rfl (by simp)⟩
+
+end userdict
+
 end compose
 
 end C10
